@@ -31,6 +31,7 @@ RULE += (' Also: no pinned item at all is tolerated once every live child has yi
 RULE += (' Also: with fixed per-consumer requests the source is never advanced beyond the largest request.')
 RULE += (' Also: a future-style source whose plain __anext__ starts the fetch when called (scenarios without cancellation).')
 RULE += (' Also: a synchronous non-iterator collection as tee source.')
+RULE += (' Also: a child asking for an item the source has already handed out receives it without a single suspension (boundary monitor, class sources, also without aclose).')
 ASSUMPTIONS = ["without a lock only non-suspending sources are claimed (as the property states)",
                "class-based cancellation-safe source: an item is consumed only after the last suspension of __anext__",
                "consumers close their child when they stop (owner closes what it advanced)"]
@@ -87,8 +88,9 @@ def cases(tier, seed, shard, nshards):
         # and then dropped, shows as two consumers inside the source / a lost item)
         # (... and it is NOT cancellation safe - a cancelled request has taken its item for good - so it is used only
         # in scenarios without a cancelled consumer)
-        case["flav"] = rng.choice(["async_class", "async_class", "async_class_eagerstart"]) \
-            if case["cancel_task"] is None else "async_class"
+        # (... and a source that has nothing but __aiter__/__anext__: nothing to close, buffers managed all the same)
+        case["flav"] = rng.choice(["async_class", "async_class", "async_class_eagerstart", "async_class_bare"]) \
+            if case["cancel_task"] is None else rng.choice(["async_class", "async_class", "async_class_bare"])
         if not case["src_susp"] and rng.random() < 0.25:
             # a synchronous collection that is not its own iterator (asked for an iterator twice, it reports it): the
             # tee draws ONE iterator from it, whatever the number of children
@@ -134,11 +136,22 @@ def execute(case, choose, cancel_at=None):
                 if case["close_after"][c] is not None and k >= case["close_after"][c]:
                     break
                 advanced[c] = True
+                # the source has already handed out the item this child asks for (a sibling fetched it): it sits in
+                # this child's buffer, and - as for itertools.tee - the child provides it at once, whatever a sibling
+                # is doing (e.g. holding the lock while it waits for the source)
+                buffered = (case["flav"] in ("async_class", "async_class_bare") and not case.get("nested") and st.pos > k)
+                before = tasks[c].resumes
                 try:
                     item = await child.__anext__()
                 except StopAsyncIteration:
                     finished[c] = True
                     break
+                if buffered:
+                    seen["buffered_reads"] += 1
+                    if tasks[c].resumes != before:
+                        viols.append(("tee/buffered-item-not-provided-at-once",
+                                      f"child {c} asked for item {k} after the source had handed out {k + 1}+ items, "
+                                      f"and was suspended {tasks[c].resumes - before}x before it got it"))
                 recs[c].append(item.uid[1])
                 del item
                 k += 1
@@ -156,6 +169,7 @@ def execute(case, choose, cancel_at=None):
                 closed[c] = True
 
     worst = {"stale": 0}
+    seen = Counter()
 
     def monitor(driver, task):
         if lock is not None and st.max_active > 1:
@@ -180,7 +194,7 @@ def execute(case, choose, cancel_at=None):
         tasks.append(driver.spawn(f"c{c}", consumer(c), cancel_at=cancel_at if c == case.get("cancel_task") else None))
     driver.run()
     info = {"trace": tuple(driver.trace), "choice_points": driver.choice_points, "worst_stale": worst["stale"],
-            "contended": lock.contended if lock is not None else 0, "suspensions": [t.resumes for t in tasks]}
+            "contended": lock.contended if lock is not None else 0, "buffered_reads": seen["buffered_reads"], "suspensions": [t.resumes for t in tasks]}
     expected = list(range(length))
     if driver.deadlock:
         viols.append(("tee/deadlock", f"no runnable task; unfinished: {[t.name for t in tasks if not t.done]}"))
@@ -214,7 +228,7 @@ def execute(case, choose, cancel_at=None):
         viols.append(("tee/lock-held-at-end", f"lock still owned by {lock.owner}"))
     if lock2 is not None and lock2.owner is not None and not driver.deadlock:
         viols.append(("tee/lock-held-at-end", f"lock of the inner tee still owned by {lock2.owner}"))
-    if all(t.done for t in tasks) and not driver.deadlock and not any(abandoned) and case["flav"] != "sync_iterable":
+    if all(t.done for t in tasks) and not driver.deadlock and not any(abandoned) and case["flav"] not in ("sync_iterable", "async_class_bare"):
         # (a synchronous source has nothing to close)
         if not st.released():
             key = "tee/unstarted-child-never-deregisters" if not all(advanced) else "tee/source-not-closed-after-last-child"
@@ -259,6 +273,7 @@ def run_case(case, stats: Counter):
                     stats["executions_with_a_tee_of_a_tee_child"] += 1
                 stats["choice_points"] += info["choice_points"]
                 stats["contended_lock_acquisitions"] += info["contended"]
+                stats["reads_of_an_item_a_sibling_already_fetched"] += info["buffered_reads"]
                 if info.get("cancelled"):
                     stats["cancelled_runs"] += 1
                 if info["worst_stale"]:
@@ -279,7 +294,7 @@ def run_case(case, stats: Counter):
 
 def finish(stats, tier):
     for need in ("executions", "choice_points", "contended_lock_acquisitions", "cancelled_runs",
-                 "scenarios_explored_exhaustively", "distinct_schedules"):
+                 "scenarios_explored_exhaustively", "distinct_schedules", "reads_of_an_item_a_sibling_already_fetched"):
         if not stats.get(need):
             return f"deciding counter {need} is zero"
     return None
